@@ -5,7 +5,25 @@ import (
 	"fmt"
 	"strings"
 	"sync"
+
+	"github.com/lmorg/murex/utils/verifhook"
 )
+
+// verifSlots renders the job table for the verif instrumentation ("fid,fid,0,...")
+func verifSlots(jobs []*Process) string {
+	if !verifhook.Enabled {
+		return ""
+	}
+	s := make([]string, len(jobs))
+	for i := range jobs {
+		if jobs[i] == nil {
+			s[i] = "0"
+		} else {
+			s[i] = fmt.Sprint(jobs[i].Id)
+		}
+	}
+	return strings.Join(s, ",")
+}
 
 type jobs struct {
 	mutex sync.Mutex
@@ -19,6 +37,7 @@ func NewJobs() *jobs {
 func (j *jobs) Add(p *Process) {
 	j.mutex.Lock()
 	j.jobs = append(j.jobs, p)
+	verifhook.Emit(j, "jobs.add", "", int64(p.Id), int64(len(j.jobs)))
 	j.mutex.Unlock()
 }
 
@@ -51,6 +70,7 @@ func (j *jobs) GarbageCollect() {
 		j.jobs = j.jobs[:last]
 	}
 
+	verifhook.Emit(j, "jobs.gc", verifSlots(j.jobs))
 	j.mutex.Unlock()
 }
 
@@ -72,6 +92,7 @@ func (j *jobs) Get(jobId int) (*Process, error) {
 		return nil, fmt.Errorf("job '%d' has already terminated", jobId)
 	}
 
+	verifhook.Emit(j, "jobs.get", "", int64(jobId), int64(j.jobs[i].Id))
 	return j.jobs[i], nil
 }
 
@@ -83,6 +104,7 @@ func (j *jobs) GetLatest() (*Process, error) {
 		if j._hasTerminated(i) {
 			continue
 		}
+		verifhook.Emit(j, "jobs.latest", "", int64(i+1), int64(j.jobs[i].Id))
 		return j.jobs[i], nil
 	}
 
